@@ -198,12 +198,19 @@ func (g *c08gen) capture(kind, depth int, inBlock string, inMacro bool) []gen.No
 				&gen.NIf{Conds: []gen.Expr{nm(name)}, Bodies: [][]gen.Node{{tx("truthy.")}}, HasElse: true, Else: []gen.Node{tx("falsy.")}}}
 		}
 		out := []gen.Node{&gen.NSetCap{Name: name, Body: g.body(depth-1, inBlock, inMacro)}}
+		if len(g.forced) == 0 && r.Intn(8) == 0 {
+			// the capture stands in the else branch of a loop over nothing: it is made where the loop stands
+			out = []gen.Node{&gen.NFor{Val: "nothing", Seq: &gen.EArr{}, Body: []gen.Node{tx("never")}, HasElse: true, Else: out}}
+		}
 		uses := r.Intn(4)
 		if len(g.forced) > 0 {
 			uses = 1 + g.cont
 		}
 		for i := 0; i < uses; i++ {
 			out = append(out, tx(g.mark()), pr(nm(name)))
+		}
+		if r.Intn(3) == 0 {
+			out = append(out, pr(&gen.ECall{Fn: "fn", Args: []gen.Expr{nm(name)}}))
 		}
 		if !inMacro && r.Intn(3) == 0 {
 			// pass the captured value on to a macro
@@ -227,7 +234,11 @@ func (g *c08gen) capture(kind, depth int, inBlock string, inMacro bool) []gen.No
 		if r.Intn(2) == 0 {
 			g.seq++
 			name := "bv" + strconv.Itoa(g.seq)
-			return []gen.Node{&gen.NSet{Name: name, X: &gen.EBlockFn{Name: str(leaf)}}, tx(g.mark()), pr(nm(name)), pr(nm(name))}
+			// (the value is text like any other: a callback that is handed it sees a string)
+			return []gen.Node{&gen.NSet{Name: name, X: &gen.EBlockFn{Name: str(leaf)}}, tx(g.mark()), pr(nm(name)), pr(nm(name)), pr(&gen.ECall{Fn: "fn", Args: []gen.Expr{nm(name)}})}
+		}
+		if r.Intn(3) == 0 {
+			return []gen.Node{pr(&gen.ECall{Fn: "fn", Args: []gen.Expr{&gen.EBlockFn{Name: str(leaf)}}})}
 		}
 		return []gen.Node{pr(&gen.EBlockFn{Name: str(leaf)})}
 	default: // kParent
@@ -237,7 +248,10 @@ func (g *c08gen) capture(kind, depth int, inBlock string, inMacro bool) []gen.No
 		if r.Intn(2) == 0 {
 			g.seq++
 			name := "pv" + strconv.Itoa(g.seq)
-			return []gen.Node{&gen.NSet{Name: name, X: &gen.EParent{}}, tx(g.mark()), pr(nm(name))}
+			return []gen.Node{&gen.NSet{Name: name, X: &gen.EParent{}}, tx(g.mark()), pr(nm(name)), pr(&gen.ECall{Fn: "fn", Args: []gen.Expr{nm(name)}})}
+		}
+		if r.Intn(3) == 0 {
+			return []gen.Node{pr(&gen.ECall{Fn: "fn", Args: []gen.Expr{&gen.EParent{}}})}
 		}
 		return []gen.Node{pr(&gen.EParent{})}
 	}
